@@ -1,6 +1,6 @@
 From Coq Require Import List Bool Arith NArith Permutation Sorted.
 From V.gen Require Consts.
-From V.C14 Require Import Model Proofs U256.
+From V.C14 Require Import Model Proofs U256 GhostProofs.
 Import ListNotations.
 From V.C14 Require Import Properties.
 Check (C14_placement :
@@ -150,3 +150,53 @@ Check (C14_reply_exactly_k_closest :
   (forall n, In n res -> In n cands) /\
   length res = Nat.min k (length cands) /\
   (forall a b, In a res -> In b cands -> ~ In b res -> dlt tgt a b)).
+Check (C14_gt_connected_stored :
+  forall local K h k, In k (ghost local K h) ->
+  exists i n, ilog2 (kxor local k) = Some i /\ In n (nth i (reach local K h) []) /\
+              n_key n = k /\ n_conn n = Connected).
+Check (C14_gt_connected_kept :
+  forall local K h1 h2 k, In k (ghost local K h1) -> ~ In (ODisconnected k) h2 ->
+  In k (ghost local K (h1 ++ h2)) /\
+  exists i n, ilog2 (kxor local k) = Some i /\ In n (nth i (reach local K (h1 ++ h2)) []) /\
+              n_key n = k /\ n_conn n = Connected).
+Check (C14_gt_last_claim :
+  forall local K h k,
+  In k (ghost local K h) <->
+  exists h1 o h2, h = h1 ++ o :: h2 /\ op_key o = k /\
+    claims_connected o (last_code local K h1 o) = true /\
+    stored_in local (reach local K (h1 ++ [o])) k = true /\
+    ~ In (ODisconnected k) h2).
+Check (C14_gt_disconnect_revokes :
+  forall local K h k, ~ In k (ghost local K (h ++ [ODisconnected k]))).
+Check (C14_gt_connected_returned :
+  forall local K h tgt kk k,
+  1 <= length local -> wf_ops local h -> length tgt = length local ->
+  outside_class local (reach local K h) tgt ->
+  In k (ghost local K h) ->
+  exists n, In n (concat (reach local K h)) /\ n_key n = k /\ n_conn n = Connected /\
+    (n_addr n = true ->
+     In n (closest local (reach local K h) tgt kk) \/
+     (length (closest local (reach local K h) tgt kk) = kk /\
+      forall a, In a (closest local (reach local K h) tgt kk) -> dlt tgt a n))).
+Check (C14_remention_displaces_refuted_before_fix :
+  exists local K h k,
+    wf_ops local h /\ In k (ghost local K h) /\
+    ~ exists i n,
+        In n (nth i (fold_left (fun t o => fst (step_gen add_conn_b local K t o)) h
+                               (empty_table (length local))) []) /\ n_key n = k).
+Check (C14_kad_gt_connected_stored :
+  forall local K h k, In k (kghost local K h) ->
+  exists i n, ilog2 (kxor local k) = Some i /\ In n (nth i (k_table (kreach local K h)) []) /\
+              n_key n = k /\ n_conn n = Connected).
+Check (C14_kad_gt_connected_kept :
+  forall local K h1 h2 k, In k (kghost local K h1) -> ~ In (KDisconnect k) h2 ->
+  In k (kghost local K (h1 ++ h2)) /\
+  exists i n, ilog2 (kxor local k) = Some i /\ In n (nth i (k_table (kreach local K (h1 ++ h2))) []) /\
+              n_key n = k /\ n_conn n = Connected).
+Check (C14_kad_gt_established :
+  forall local K h p d pe,
+  stored_in local (k_table (kreach local K (h ++ [KEstablished p d pe]))) p = true ->
+  In p (kghost local K (h ++ [KEstablished p d pe]))).
+Check (C14_kad_is_table_history :
+  forall local K h,
+  k_table (kreach local K h) = reach local K (kflat local K (kad_empty (length local)) h)).
